@@ -1,9 +1,9 @@
 package rules
 
 import (
-	"os"
 	"fmt"
 	"go/types"
+	"os"
 	"strings"
 
 	"golang.org/x/tools/go/ssa"
@@ -212,93 +212,7 @@ func c10(e *Env) {
 			o.OK(g.Where(u.n), "OutFiles["+u.key.String()+"] = "+u.val.String())
 		}
 	}
-	plain, joined := false, false
-	type upCase struct {
-		u      upd
-		isJoin bool
-	}
-	var upCases []upCase
-	for _, u := range need("Upstream") {
-		// one update may serve both kinds of input (the IPs to link are chosen by a helper): every alternative of
-		// the key is classified
-		hasPlain, hasJoin := false, false
-		for _, alt := range u.key.DeepAlts(8) {
-			as := alt.String()
-			if os.Getenv("RULE_DEBUG") == "C10" {
-				fmt.Println("Upstream key alt:", as)
-			}
-			if strings.Contains(as, e.subFieldName()+"[") {
-				hasJoin = true
-			} else {
-				hasPlain = true
-			}
-		}
-		if hasPlain {
-			upCases = append(upCases, upCase{u, false})
-		}
-		if hasJoin {
-			upCases = append(upCases, upCase{u, true})
-		}
-	}
-	for _, uc := range upCases {
-		u, isJoin := uc.u, uc.isJoin
-		ks, vs := u.key.String(), u.val.String()
-		key := "Upstream"
-		if isJoin {
-			key = "Upstream(join)"
-		}
-		o := ob(key, "Upstream[Path(in)] ← in.AuditInfo() for every input (unconditionally)")
-		okKV := isCallSym(u.key, fnPath) && isCallSym(u.val, "(*FileIP).AuditInfo") && u.key.Args[0].String() == u.val.Args[0].String() &&
-			(strings.Contains(ks, "$t.InIPs") || isJoin)
-		if !okKV {
-			o.Fail(g.Where(u.n), "Upstream["+ks+"] = "+vs+": not keyed by the input's path with that input's record")
-			continue
-		}
-		// complete loops; for the plain case the only admissible skip is the joined-port branch
-		las := iterLoops(g, u.n)
-		if len(las) == 0 {
-			o.Fail(g.Where(u.n), "the Upstream entry is not set inside a loop over the inputs (only one input is linked)")
-			continue
-		}
-		okLoops := true
-		for _, la := range las {
-			if !e.loopHarmlessExits(g, la) {
-				okLoops = false
-				o.Fail(g.Where(u.n), "the loop linking the inputs can be left early")
-			}
-		}
-		if !okLoops {
-			continue
-		}
-		gs := strings.Join(e.chainGuards(g, u.n, las[len(las)-1]), " && ")
-		// admissible guards: loop continuation tests and the join flag
-		badGuard := ""
-		for _, gd := range strings.Split(gs, " && ") {
-			gd = strings.TrimSpace(gd)
-			if gd == "" || strings.HasPrefix(strings.TrimPrefix(gd, "!"), "more∈") || strings.HasPrefix(gd, "op<") || strings.Contains(gd, "."+e.joinFlagName()) {
-				continue
-			}
-			badGuard = gd
-		}
-		if badGuard != "" {
-			o.Fail(g.Where(u.n), "the Upstream entry is only set under the condition "+trunc(badGuard, 160)+": some inputs would be missing from the lineage")
-			continue
-		}
-		if isJoin {
-			joined = true
-		} else {
-			plain = true
-		}
-		o.OK(g.Where(u.n), "Upstream["+trunc(ks, 80)+"] = "+trunc(vs, 80))
-	}
-	if len(byField["Upstream"]) > 0 {
-		if !plain {
-			ob("Upstream", "Upstream for plain in-ports").Fail(core.FuncName(bfn), "no Upstream entry for the IPs of ordinary in-ports")
-		}
-		if !joined {
-			ob("Upstream(join)", "Upstream for the members of joined sub-streams").Fail(core.FuncName(bfn), "the members of a joined sub-stream are not recorded as upstream")
-		}
-	}
+	e.upstreamRule("R1")
 	// ID
 	obID := r.Ob("R1", "NewAuditInfo:ID", "every record gets an ID from the random-id generator")
 	if nai := p.Func("NewAuditInfo"); nai != nil {
@@ -529,5 +443,116 @@ func (e *Env) c10Tags() {
 	}
 	if !found {
 		ob2.Fail(core.FuncName(closure), "task tags are not derived from the in-IPs' tags")
+	}
+}
+
+// upstreamRule (C10.R1, shared as C17.R5 and C18.R3): Upstream[Path(in)] ← in.AuditInfo() for every in-IP and for every
+// member of a joined sub-stream, in complete loops and under no condition other than the join flag.
+func (e *Env) upstreamRule(rule string) {
+	r := e.R
+	sp := e.spine()
+	bfn, _ := e.auditBuilder()
+	if sp == nil || bfn == nil {
+		r.Ob(rule, "audit-builder:Upstream", "anchor").Unknown("-", "audit builder not found")
+		return
+	}
+	g := sp.g
+	byField := map[string][]upd{}
+	for _, u := range e.recordUpdates() {
+		byField[u.field] = append(byField[u.field], u)
+	}
+	ob := func(f, d string) *core.Obligation { return r.Ob(rule, "audit-builder:"+f, d) }
+	need := func(f string) []upd {
+		if len(byField[f]) == 0 {
+			ob(f, "the audit record's "+f+" is filled").Fail(core.FuncName(bfn), "AuditInfo."+f+" is never stored in "+core.FuncName(bfn)+": the record lacks it")
+		}
+		return byField[f]
+	}
+	plain, joined := false, false
+	type upCase struct {
+		u      upd
+		isJoin bool
+	}
+	var upCases []upCase
+	for _, u := range need("Upstream") {
+		// one update may serve both kinds of input (the IPs to link are chosen by a helper): every alternative of
+		// the key is classified
+		hasPlain, hasJoin := false, false
+		for _, alt := range u.key.DeepAlts(8) {
+			as := alt.String()
+			if os.Getenv("RULE_DEBUG") == "C10" {
+				fmt.Println("Upstream key alt:", as)
+			}
+			if strings.Contains(as, e.subFieldName()+"[") {
+				hasJoin = true
+			} else {
+				hasPlain = true
+			}
+		}
+		if hasPlain {
+			upCases = append(upCases, upCase{u, false})
+		}
+		if hasJoin {
+			upCases = append(upCases, upCase{u, true})
+		}
+	}
+	for _, uc := range upCases {
+		u, isJoin := uc.u, uc.isJoin
+		ks, vs := u.key.String(), u.val.String()
+		key := "Upstream"
+		if isJoin {
+			key = "Upstream(join)"
+		}
+		o := ob(key, "Upstream[Path(in)] ← in.AuditInfo() for every input (unconditionally)")
+		okKV := isCallSym(u.key, fnPath) && isCallSym(u.val, "(*FileIP).AuditInfo") && u.key.Args[0].String() == u.val.Args[0].String() &&
+			(strings.Contains(ks, "$t.InIPs") || isJoin)
+		if !okKV {
+			o.Fail(g.Where(u.n), "Upstream["+ks+"] = "+vs+": not keyed by the input's path with that input's record")
+			continue
+		}
+		// complete loops; for the plain case the only admissible skip is the joined-port branch
+		las := iterLoops(g, u.n)
+		if len(las) == 0 {
+			o.Fail(g.Where(u.n), "the Upstream entry is not set inside a loop over the inputs (only one input is linked)")
+			continue
+		}
+		okLoops := true
+		for _, la := range las {
+			if !e.loopHarmlessExits(g, la) {
+				okLoops = false
+				o.Fail(g.Where(u.n), "the loop linking the inputs can be left early")
+			}
+		}
+		if !okLoops {
+			continue
+		}
+		gs := strings.Join(e.chainGuards(g, u.n, las[len(las)-1]), " && ")
+		// admissible guards: loop continuation tests and the join flag
+		badGuard := ""
+		for _, gd := range strings.Split(gs, " && ") {
+			gd = strings.TrimSpace(gd)
+			if gd == "" || strings.HasPrefix(strings.TrimPrefix(gd, "!"), "more∈") || strings.HasPrefix(gd, "op<") || strings.Contains(gd, "."+e.joinFlagName()) {
+				continue
+			}
+			badGuard = gd
+		}
+		if badGuard != "" {
+			o.Fail(g.Where(u.n), "the Upstream entry is only set under the condition "+trunc(badGuard, 160)+": some inputs would be missing from the lineage")
+			continue
+		}
+		if isJoin {
+			joined = true
+		} else {
+			plain = true
+		}
+		o.OK(g.Where(u.n), "Upstream["+trunc(ks, 80)+"] = "+trunc(vs, 80))
+	}
+	if len(byField["Upstream"]) > 0 {
+		if !plain {
+			ob("Upstream", "Upstream for plain in-ports").Fail(core.FuncName(bfn), "no Upstream entry for the IPs of ordinary in-ports")
+		}
+		if !joined {
+			ob("Upstream(join)", "Upstream for the members of joined sub-streams").Fail(core.FuncName(bfn), "the members of a joined sub-stream are not recorded as upstream")
+		}
 	}
 }
